@@ -90,8 +90,29 @@ Definition seg_get (s : segment) (key : N) : option bytes :=
   | None => None
   end.
 
+(* NewLevelDbNeedleMap -> generateLevelDbFile: the leveldb of a segment is rebuilt
+   from its .idx file: every key whose last index record has offset 0 or size 0 is
+   deleted (used by a restart, below, and by Reset) *)
+Definition regen_rec (r : rec) : rec :=
+  {| r_key := r_key r; r_off := r_off r; r_data := r_data r;
+     r_valid := negb (r_off r =? 0) && negb (is_empty (r_data r)) |}.
+Definition regen_seg (s : segment) : segment :=
+  {| sg_id := sg_id s; sg_size := sg_size s; sg_recs := map regen_rec (sg_recs s) |}.
+
 (* ---------- OnDiskCacheLayer ---------- *)
-Definition reset_seg (s : segment) : segment := {| sg_id := sg_id s; sg_size := 0; sg_recs := [] |}.
+(* ChunkCacheVolume.Reset = doReset, then LoadOrCreateChunkCacheVolume of the same
+   file name.  doReset (chunk_cache_on_disk.go:91-98), file by file:
+     os.Truncate(.dat, 0)   the data file is emptied        (fileSize re-read as 0)
+     os.Truncate(.idx, 0)   the index file is emptied       (no record survives)
+     os.RemoveAll(.ldb)     the leveldb directory is removed
+   The reload finds no leveldb and REGENERATES it from the .idx file — the emptied
+   one.  (Were the .idx not emptied, the rebuilt map would keep the evicted needles'
+   offsets pointing into the new contents of the .dat.) *)
+Definition truncate_dat (s : segment) : segment :=
+  {| sg_id := sg_id s; sg_size := 0; sg_recs := sg_recs s |}.
+Definition truncate_idx (s : segment) : segment :=
+  {| sg_id := sg_id s; sg_size := sg_size s; sg_recs := [] |}.
+Definition reset_seg (s : segment) : segment := regen_seg (truncate_idx (truncate_dat s)).
 
 Definition layer_set (limit : N) (l : layer) (key : N) (d : bytes) : layer :=
   match l with
@@ -210,12 +231,6 @@ Definition mem_choices (st : state) (f : fileid) : list (option bytes) :=
    than its .idx (the flag beside the file number; timestamps again):
    generateLevelDbFile deletes every key whose last index record has offset 0 or
    size 0. *)
-Definition regen_rec (r : rec) : rec :=
-  {| r_key := r_key r; r_off := r_off r; r_data := r_data r;
-     r_valid := negb (r_off r =? 0) && negb (is_empty (r_data r)) |}.
-Definition regen_seg (s : segment) : segment :=
-  {| sg_id := sg_id s; sg_size := sg_size s; sg_recs := map regen_rec (sg_recs s) |}.
-
 Fixpoint find_seg (l : layer) (id : N) : option segment :=
   match l with
   | [] => None
